@@ -285,6 +285,39 @@ def _harmless_call(c: ast.Call) -> bool:
     return False
 
 
+def inputs_pattern_and_join():
+    """INPUTS_NAME_PATTERN and how `_prepare_overlays` joins the missing input names"""
+    path = SRC / "resource_function" / "prepare.py"
+    tree = ast.parse(path.read_text())
+    pat = None
+    for n in tree.body:
+        if isinstance(n, ast.Assign) and len(n.targets) == 1 and isinstance(n.targets[0], ast.Name) \
+                and n.targets[0].id == "INPUTS_NAME_PATTERN" and isinstance(n.value, ast.Call) \
+                and ast.unparse(n.value.func) == "re.compile" and len(n.value.args) == 1 \
+                and isinstance(n.value.args[0], ast.Constant):
+            pat = n.value.args[0].value
+    style = None
+    fn = next((n for n in tree.body if isinstance(n, ast.FunctionDef) and n.name == "_prepare_overlays"), None)
+    for n in ast.walk(fn) if fn else []:
+        # `", ".join(<generator or iterable>)` whose iterable mentions `missing_inputs`
+        if isinstance(n, ast.Call) and isinstance(n.func, ast.Attribute) and n.func.attr == "join" and len(n.args) == 1:
+            arg = n.args[0]
+            if "missing_inputs" not in {x.id for x in ast.walk(arg) if isinstance(x, ast.Name)}:
+                continue
+            if isinstance(arg, (ast.GeneratorExp, ast.ListComp)) and len(arg.generators) == 1:
+                it = arg.generators[0].iter
+                tgt = arg.generators[0].target
+                formatted = isinstance(arg.elt, ast.JoinedStr) or (
+                    isinstance(arg.elt, ast.Call) and ast.unparse(arg.elt.func) in ("str", "repr", "format"))
+                uses_target = isinstance(tgt, ast.Name) and tgt.id in {x.id for x in ast.walk(arg.elt) if isinstance(x, ast.Name)}
+                kind = "formatEach" if formatted and uses_target else "raw"
+            else:
+                it, kind = arg, "raw"
+            is_sorted = any(isinstance(x, ast.Call) and ast.unparse(x.func) == "sorted" for x in ast.walk(it))
+            style = (kind, is_sorted)
+    return pat, style, _sha(path)
+
+
 def _inert(st) -> bool:
     """a statement that neither compiles nor looks anything up: only logging, `_location(...)`,
     `spec.get(...)`-style reads and plain data"""
@@ -373,6 +406,14 @@ def extract() -> dict:
         pats, psha, ok = {}, "", False
         problems.append(f"patterns: {e!r}")
     gates = schema_gates()
+    try:
+        ipat, jstyle, isha = inputs_pattern_and_join()
+        if ipat is None or jstyle is None:
+            ok = False
+            problems.append("INPUTS_NAME_PATTERN or the join of the missing input names not found")
+    except Exception as e:
+        ipat, jstyle, isha, ok = None, None, "", False
+        problems.append(f"inputs pattern: {e!r}")
 
     lines = [
         "-- REGENERATED by harness/extractors/CelTables.py from celpy's cel.lark (as compiled by lark),",
@@ -400,6 +441,9 @@ def extract() -> dict:
             lines.append(f"  {n} := .{falls.get(n, 'raise')}")
     lines.append(f"def stepsPattern : String := {lean_str(pats.get('STEPS_NAME_PATTERN', ''))}")
     lines.append(f"def parentPattern : String := {lean_str(pats.get('PARENT_NAME_PATTERN', ''))}")
+    lines.append(f"def inputsPattern : String := {lean_str(ipat or '')}")
+    lines.append("def missingJoinStyle : JoinStyle := ." + (jstyle[0] if jstyle else "raw") + " "
+                 + ("true" if (jstyle and jstyle[1]) else "false"))
     lines.append("def gates : List (String × Bool) := [" + ", ".join(
         f"({lean_str(n)}, {'true' if g else 'false'})" for n, g in gates) + "]")
     lines += ["end Koreo.Gen.CelTables", ""]
@@ -430,7 +474,8 @@ def extract() -> dict:
     info.update({
         "ok": ok, "rewritten": changed, "problems": problems, "rules": len(rules),
         "dispatch": {"sets": sets, "falls": falls, "caught": (disp or {}).get("caught")},
-        "patterns": pats, "gates": dict(gates), "unhandled_contexts": missing,
+        "patterns": pats, "inputs_pattern": ipat, "missing_join_style": list(jstyle) if jstyle else None,
+        "gates": dict(gates), "unhandled_contexts": missing,
         "sha": {"structure_extractor.py": (disp or {}).get("sha"), "workflow/prepare.py": psha},
     })
     return info
